@@ -170,7 +170,7 @@ kani_unit("fft_index", "winter-math", "math/src/fft/mod.rs", "kani/math_fft.rs",
     H("fft_index_canary_must_fail", ["C09"], [], "false claim: permute_index(8, i) == i", canary=True),
 ])
 
-verus_unit("fftv", "fftv", ["C09"], ["fft::fft_inputs::FftInputs::permute (every power-of-two length: position t receives the element at the bit-reversed position)"])
+verus_unit("fftv", "fftv", ["C09"], ["fft::fft_inputs::FftInputs::permute (every power-of-two length: position t receives the element at the bit-reversed position)", "fft::permute (the free function behind get_twiddles / get_inv_twiddles: dispatches to FftInputs::permute in the build without the `concurrent` feature)"])
 
 verus_unit("fftcore", "fftcore", ["C09"], [
     "fft::fft_inputs::fft_in_place (the butterfly network: every power-of-two length, every element value, every twiddle table; equals the radix-2 decimation-in-time recursion on each interleaved subsequence, other positions untouched)",
